@@ -10,9 +10,9 @@ import tempfile
 import warnings
 
 from .core import exc_class, hx, unhx
-from .fstree import (CHAIN_FILE, CHAIN_NAME, FILE_MODES, ROOT_SPELLINGS, chain_file, chain_has_file, collect_ids, count_nodes,
-                     enc_chain, enc_tree, gen_name, gen_tree, has_kind, impl_chain, materialise, ref_chain, ref_ids, shrink_tree,
-                     spelled_root, subdirs)
+from .fstree import (CHAIN_FILE, CHAIN_NAME, FILE_MODES, ROOT_SPELLINGS, apply_ops, chain_file, chain_has_file, collect_ids,
+                     count_nodes, enc_chain, enc_tree, gen_name, gen_reread, gen_tree, has_kind, impl_chain, materialise, mutate_tree,
+                     other_spelling, ref_chain, ref_ids, shrink_tree, spelled_root, subdirs)
 
 ID = "C13"
 PROPS = "Props/C13.v"
@@ -50,7 +50,13 @@ RULE = ("random file-system trees (depth <= 5, <= 60 nodes, files 0..100 bytes p
         "kind and a limit, N in 150..900 (ids at every level and the export must equal an iterative bottom-up reference of "
         "the pruned chain, root id = model) and N in {1000, 1500} (above the interpreter's recursion limit: open known "
         "finding tree-deeper-than-recursion-limit, demonstrated), more in the thorough tier; built, encoded, hashed and "
-        "removed iteratively, the recursion limit is never raised around the library; the root_path given to ignore_directories_patterns is spelled like the "
+        "removed iteratively, the recursion limit is never raised around the library; RE-READ (25 % of the tree cases): after the "
+        "reads and the export the tree is modified in place - files rewritten with other bytes of the same length and "
+        "atime/mtime restored, exec bits flipped, file <-> symlink, directory -> file, entries added and removed, a directory "
+        "renamed (same inode), two same-size files swapped - or removed and built again at the same path with other bytes "
+        "of the same sizes and the old times, then read again with the same filter under two spellings and exported again "
+        "in the same process: ids = those of the pruned tree as it is now (independent reference, and the model), the export "
+        "(eager and lazy data) shows the current bytes; the root_path given to ignore_directories_patterns is spelled like the "
         "path given to from_disk or in another spelling of the same absolute path (absolute / relative / trailing slash "
         "/ '/.'), never resolving symbolic links; each case is read with the filter, read again unfiltered from a copy "
         "pruned by an independent routine of the harness (own glob matcher, fnmatch not used), read without limit, and "
@@ -388,6 +394,13 @@ FIXED = [
     {"tree": D((b"a.c", R(b"1")), (b"b.c", D((b"x.c", R(b"2")), (b"y", R(b"3")))), (b"\xc3\xa9t\xc3\xa9", D((b"k", R(b"4")))), (b"\xff\xfe", D((b"k", R(b"5"))))),
      "filter": {"pats": [b"*.c".hex(), b"\xc3\xa9*".hex(), b"??".hex()], "abs": [False, False, False]}, "limit": None, "root": "slash3", "fspell": "dotted"},
     {"tree": D((b"x", D((b"y", D((b"z", D()))))), (b"e", D())), "filter": "empty", "limit": None, "root": "vialink_rel"},
+    # re-read after in-place modification
+    {"tree": D((b"a", R(b"same")), (b"b", R(b"sam3", 0o755)), (b"s", D((b"c", R(b"hello")), (b"l", L(b"c")))), (b"e", D())),
+     "filter": "empty", "limit": 4, "reread": {"seed": 1, "n": 5, "mode": "edit"}},
+    {"tree": D((b"a", R(b"same")), (b"b", R(b"sam3", 0o755)), (b"s", D((b"c", R(b"hello")), (b"l", L(b"c")))), (b"e", D())),
+     "filter": {"pats": [b"s/l".hex()], "abs": [False]}, "limit": None, "reread": {"seed": 2, "n": 3, "mode": "rebuild"}, "root": "vialink"},
+    {"tree": D((b"a", R(b"same")), (b"dir", D((b"c", R(b"hello")))), (b"k", D((b"c", R(b"hell0"))))),
+     "filter": {"named": [b"DIR".hex()], "cs": False}, "limit": None, "reread": {"seed": 3, "n": 4, "mode": "edit"}},
     # degenerate filter arguments
     {"tree": D((b"a", D((b"f", R(b"x")))), (b"g", R(b"y"))), "filter": {"pats": [], "abs": []}, "limit": None},            # excludes nothing
     {"tree": D((b"a", D((b"f", R(b"x")))), (b"g", R(b"y"))), "filter": {"pats": [], "abs": [], "as": "gen"}, "limit": 0, "root": "rel"},
@@ -413,7 +426,7 @@ def gen(rng, tier):
         t = gen_case_tree(rng, big=(k % 30 == 7))
         flt = gen_filter(rng, t)
         shape, spell = gen_root(rng, flt)
-        cases.append({"tree": t, "filter": flt, "limit": gen_limit(rng, t), "root": shape, "fspell": spell})
+        cases.append({"tree": t, "filter": flt, "limit": gen_limit(rng, t), "root": shape, "fspell": spell, "reread": gen_reread(rng, 0.25)})
     for k in range(20 if tier == "quick" else 400):
         cases.insert(len(FIXED) + k * (len(cases) // (25 if tier == "quick" else 420)), gen_glob_case(rng))
     chains = gen_chain_cases(rng, tier)
@@ -784,6 +797,10 @@ def nontrivial(c):
 
 
 def classify(c):
+    return _classify(c) + (["reread-after-" + c["reread"].get("mode", "edit")] if isinstance(c, dict) and c.get("reread") else [])
+
+
+def _classify(c):
     if _is_glob(c):
         return ["glob-pairs"]
     if _is_chain(c):
@@ -1007,7 +1024,34 @@ def impl(c):
                 res["export"], res["export_bad"] = _export_facts(d, expected, lim)
             except Exception as e:
                 res["export_error"] = exc_class(e) + ":" + str(e)[:80]
+        if c.get("reread"):
+            # the tree is modified IN PLACE (or removed and built again at the same path), then read and exported again with
+            # the same filter, in the same process: nothing may be carried over from the reads above
+            try:
+                t2, lim2 = _reread_tree(c)
+                apply_ops(mutate_tree(t, c["reread"])[1], _real, t2)
+                e1 = Directory.from_disk(path=root, path_filter=_mk_filter(flt, spelled, lexical), max_content_length=lim2)
+                e2 = Directory.from_disk(path=other_spelling(root, _real), path_filter=_mk_filter(flt, other_spelling(root, _real), os.path.abspath(other_spelling(root, _real))))
+                res["reread_ids"] = {hx(k): v for k, v in collect_ids(e1).items()}
+                res["reread_equal"] = res["reread_ids"] == {hx(k): v for k, v in collect_ids(e2).items()}
+                expected2 = {}
+                for _, (_k, data) in _files_by_path(prune_tree(t2, flt)).items():
+                    expected2.setdefault(_git_blob(data), [])
+                    if data not in expected2[_git_blob(data)]:
+                        expected2[_git_blob(data)].append(data)
+                res["reread_export"], res["reread_export_bad"] = _export_facts(e1, expected2, lim2)
+            except Exception as e:
+                res["reread_error"] = exc_class(e) + ":" + str(e)[:80]
     return res
+
+
+def _reread_tree(c):
+    """(the tree after the edits, the limit of the second read: the case's, unless a link of the modified tree is longer)"""
+    t2 = mutate_tree(c["tree"], c["reread"])[0]
+    lim = c["limit"]
+    if lim is not None and _symlink_should_raise(dict(c, tree=t2)):
+        lim = None
+    return t2, lim
 
 
 # ------------------------------------------------------------------ model
@@ -1031,14 +1075,19 @@ def requests(c):
     t = enc_tree(c["tree"])
     f = enc_filter(c["filter"])
     lim = "-" if c["limit"] is None else str(c["limit"])
+    extra = []
+    if c.get("reread"):
+        t2, lim2 = _reread_tree(c)
+        l2 = "-" if lim2 is None else str(lim2)
+        extra = ["ids %s %s id %s" % (f, l2, enc_tree(t2)), "export %s %s %s" % (f, l2, enc_tree(t2))]
     if _is_pat(c["filter"]):
         # the literal stack/queue model does not take the pattern filter: the fifth request is the two-predicate model
         # again, with the listing reversed
         return ["ids %s %s id %s" % (f, lim, t), "ids %s - rev %s" % (f, t), "pruned %s %s" % (f, t), "export %s %s %s" % (f, lim, t),
-                "ids %s %s rev %s" % (f, lim, t)]
+                "ids %s %s rev %s" % (f, lim, t)] + extra
     # the last request goes through the literal stack/queue model (from_disk_iter) with the listing reversed
     return ["ids %s %s id %s" % (f, lim, t), "ids %s - rev %s" % (f, t), "pruned %s %s" % (f, t), "export %s %s %s" % (f, lim, t),
-            "iterids %s %s rev %s" % (f, lim, t)]
+            "iterids %s %s rev %s" % (f, lim, t)] + extra
 
 
 def _ids(r):
@@ -1057,8 +1106,9 @@ def model(c, resp):
         return {"rootid": rid(resp[0]), "rootid_rev": rid(resp[1]), "pruned_root": rid(resp[2])}
     res = {"ids": _ids(resp[0]), "ids_nolimit_rev": _ids(resp[1]), "pruned_root": resp[2][3:] if resp[2].startswith("ok ") else resp[2],
            "iterids": _ids(resp[4])}
-    r = resp[3]
-    if r.startswith("ok "):
+    def parse_export(r):
+        if not r.startswith("ok "):
+            return r, []
         xs = []
         for item in ([] if r[3:] == "." else r[3:].split(";")):
             p = item.split(":")
@@ -1068,10 +1118,13 @@ def model(c, resp):
                 xs.append(["C", p[1], p[2], int(p[3])])
             else:
                 xs.append(["S", p[1], int(p[2])])
-        res["export"] = sorted(xs)
+        return sorted(xs), xs
+    res["export"], xs = parse_export(resp[3])
+    if isinstance(res["export"], list):
         res["export_root_first"] = bool(xs) and xs[0][0] == "D" and xs[0][1] == res["ids"].get(".") if isinstance(res["ids"], dict) else False
-    else:
-        res["export"] = r
+    if c.get("reread"):
+        res["reread_ids"] = _ids(resp[5])
+        res["reread_export"] = parse_export(resp[6])[0]
     return res
 
 
@@ -1129,6 +1182,20 @@ def oracle(c, ires, mres):
         return "the export raised " + ires["export_error"]
     if ires["export_bad"]:
         return "; ".join(ires["export_bad"][:3])
+    if c.get("reread"):
+        if "reread_error" in ires:
+            return "reading / exporting the tree again after it was modified in place raised " + ires["reread_error"]
+        t2, _lim2 = _reread_tree(c)
+        want = {hx(k): v for k, v in ref_ids(prune_tree(t2, c["filter"])).items()}
+        if ires["reread_ids"] != want:
+            a = ires["reread_ids"]
+            diff = sorted(k for k in set(a) | set(want) if a.get(k) != want.get(k))[:4]
+            return ("a second filtered read, after the tree was modified in place (%s), does not give the ids of the pruned tree as "
+                    "it is now: differs at paths %s" % (c["reread"].get("mode", "edit"), diff))
+        if not ires["reread_equal"]:
+            return "two spellings of the same root give different ids on the second read"
+        if ires["reread_export_bad"]:
+            return "second export (tree modified in place): " + "; ".join(ires["reread_export_bad"][:3])
     return None
 
 
@@ -1171,6 +1238,11 @@ def compare(c, ires, mres):
         only_m = [x for x in a if x not in b][:2]
         only_i = [x for x in b if x not in a][:2]
         return "exports differ: only in model %s, only in implementation %s" % (only_m, only_i)
+    if c.get("reread") and "reread_ids" in ires:
+        if mres["reread_ids"] != ires["reread_ids"]:
+            return "node ids of the re-read (modified) tree differ between model and implementation"
+        if mres["reread_export"] != ires["reread_export"]:
+            return "exports of the re-read (modified) tree differ between model and implementation"
     return None
 
 
@@ -1184,6 +1256,8 @@ def shrink(c):
     if _is_chain(c):
         yield dict(c, chain=c["chain"] // 2)
         yield dict(c, chain=c["chain"] - 1)
+    if c.get("reread") and c["reread"].get("n", 1) > 1:
+        yield dict(c, reread=dict(c["reread"], n=c["reread"]["n"] - 1))
     for t in shrink_tree(c["tree"]):
         yield dict(c, tree=t)
     if c.get("fspell", "same") != "same":
@@ -1231,7 +1305,7 @@ def coq_cases(cases):
     prune_named + node_id, export and mt_id with H := Sha1.sha1 evaluated by vm_compute inside Coq vs the extracted driver,
     on small trees: the hand-written FIXED cases and the first small generated ones (extraction cross-check)"""
     from .c06 import coq_from_disk, coq_tree_bytes
-    small = [c for c in cases if not _is_glob(c) and not _is_chain(c) and not _is_pat(c["filter"])
+    small = [c for c in cases if not _is_glob(c) and not _is_chain(c) and not c.get("reread") and not _is_pat(c["filter"])
              and count_nodes(c["tree"]) <= 10 and coq_tree_bytes(c["tree"]) <= 400][:16]
     cases[:] = small
     return coq_from_disk(ID, [(c, requests(c)) for c in small])
